@@ -4,6 +4,8 @@ import (
 	"fmt"
 	"math/rand"
 	"sort"
+	"strconv"
+	"strings"
 	"testing"
 
 	"pgregory.net/rapid"
@@ -406,6 +408,9 @@ func checkOut(c OutCase) error {
 	}
 	// the outgroup is one side of a split
 	if err != nil {
+		if shadowed(c.Tree) {
+			return nil // an inner node carries the name of a tip: refusing such a tree is an answer
+		}
 		return fmt.Errorf("rooting on %v, one side of a split, failed: %v", present, err)
 	}
 	if c.Remove {
@@ -473,6 +478,24 @@ func checkOut(c OutCase) error {
 	return nil
 }
 
+func firstOr(l []string, d string) string {
+	if len(l) == 0 {
+		return d
+	}
+	return l[0]
+}
+
+// shadowed tells whether some inner node carries the name of a tip.
+func shadowed(m *ref.Node) bool {
+	tips := map[string]bool{}
+	for _, n := range m.Tips() {
+		tips[n] = true
+	}
+	found := false
+	m.Walk(func(x, p *ref.Node) { found = found || (!x.IsTip() && x.Name != "" && tips[x.Name]) })
+	return found
+}
+
 func genOut(t *rapid.T, thorough bool) OutCase {
 	m := gen.Tree(t, treeOpts(t, thorough))
 	c := OutCase{Tree: m, Indexed: rapid.Bool().Draw(t, "indexed"), Remove: rapid.Bool().Draw(t, "remove"), Strict: rapid.Bool().Draw(t, "strict")}
@@ -537,6 +560,19 @@ func genOut(t *rapid.T, thorough bool) OutCase {
 		}
 		if left < 3 {
 			c.Remove = false
+		}
+	}
+	if _, numErr := strconv.ParseFloat(firstOr(c.Out, "1"), 64); numErr != nil && !strings.Contains(firstOr(c.Out, "/"), "/") && len(c.History) == 0 && rapid.IntRange(0, 14).Draw(t, "shadow") == 4 {
+		// a named inner node that carries the name of an outgroup tip (clade names that repeat a species
+		// name): the rooting may be refused; if it succeeds, the tip - not the inner node - is what was named
+		var inner []*ref.Node
+		c.Tree.Walk(func(x, p *ref.Node) {
+			if p != nil && !x.IsTip() && x.Name != "" {
+				inner = append(inner, x)
+			}
+		})
+		if len(inner) > 0 {
+			inner[rapid.IntRange(0, len(inner)-1).Draw(t, "shadowat")].Name = c.Out[0]
 		}
 	}
 	for _, op := range c.History {
